@@ -303,7 +303,14 @@ impl Env {
 						let _ = serve_with_graceful_shutdown(server_io, svc, stopped).await;
 					});
 				} else {
-					let svc = builder.clone().build(methods.clone(), stop_handle.clone());
+					// the two usual per-connection spellings take turns from case to case: the shared builder cloned as it
+					// is, or cloned and given its rpc middleware again (examples/jsonrpsee_as_service.rs) — the connections
+					// of one server get distinct ids either way
+					let svc = if (cap as u64 + qcap as u64 + nconns as u64) % 2 == 0 {
+						builder.clone().build(methods.clone(), stop_handle.clone())
+					} else {
+						builder.clone().set_rpc_middleware(RpcServiceBuilder::new()).build(methods.clone(), stop_handle.clone())
+					};
 					tokio::spawn(async move {
 						let _ = serve_with_graceful_shutdown(server_io, svc, stopped).await;
 					});
